@@ -10,9 +10,11 @@ import (
 	"io"
 	"os"
 	"path/filepath"
+	"runtime/pprof"
 	"sort"
 	"strings"
 	"sync"
+	"time"
 
 	"k8s.io/klog"
 
@@ -196,7 +198,11 @@ func shrinkName(hx string, fails func(string) bool) string {
 
 func shrink(c *rig.Ctx, cs Case, sev int, class string) Case {
 	// never trade a property violation for a difference, nor one class of violation for another
+	t0 := time.Now()
 	fails := func(x Case) bool {
+		if time.Since(t0) > 90*time.Second {
+			return false // enough shrinking: keep what we have
+		}
 		got := runCase(c, x, mode{})
 		return got >= sev && lastClass == class
 	}
@@ -300,6 +306,19 @@ func silence() {
 func main() {
 	silence()
 	loadKnown()
+	// watchdog: a harness that does not finish is an infrastructure error with a goroutine dump, never a verdict
+	go func() {
+		limit := 25 * time.Minute
+		for _, a := range os.Args {
+			if a == "thorough" {
+				limit = 90 * time.Minute
+			}
+		}
+		time.Sleep(limit)
+		fmt.Fprintln(os.Stderr, "C13 harness watchdog: not finished after", limit, "- goroutines:")
+		pprof.Lookup("goroutine").WriteTo(os.Stderr, 2)
+		os.Exit(3)
+	}()
 	rig.Main("C13", func(c *rig.Ctx) {
 		c.SetRule("four streams. shard: 64 names (all byte values, lengths 0-300, plus a fixed pool) x one shard count from {1,2,3,7,8,16,64,1000,65535,2^31-1,2^31,2^32-1,2^32,2^32+3,0,-1,...}: util.GetShardID (twice), clientSets.ShardIDFor with the count as carried by ServerInfo (int32), model, range/determinism/both-sides judges. " +
 			"gateway: a clientSets with scripted shardCount/leaderEndpoints, optionally synced over HTTP from the ServerInfo of a real rateLimiter whose real elector was told a list of leaders; ShardIDFor/ClientFor of 12 names; judge: the client returned addresses the server's leader of the upstream's shard. " +
